@@ -299,10 +299,18 @@ def run_big(seed):
         op = rnd.choice(av)
         for link in range(rnd.randrange(5, 12)):
             outs = [(rnd.randrange(1, 500), rnd.choice(m.scripts))]
-            raw = ser([op], outs)
+            ins = [op]
+            if link and rnd.random() < 0.5:
+                # a child with an in-mempool parent AND a confirmed input (its UTXO is looked up by the batch that fetched
+                # the child, which may not be the batch that accepts it)
+                extra = [x for x in m.utxos if x not in m.spent]
+                if extra:
+                    ins.append(rnd.choice(extra))
+                    rnd.shuffle(ins)
+            raw = ser(ins, outs)
             t = dsha(raw)
-            m.pool[t] = ([op], outs, raw)
-            m.spent.add(op)
+            m.pool[t] = (ins, outs, raw)
+            m.spent.update(ins)
             op = (t, 0)
     while len(m.pool) < rnd.randrange(420, 640):
         av = [op for op in m.utxos if op not in m.spent]
@@ -330,7 +338,7 @@ def main():
     seed0 = int(req.get('seed') or 0) * 7919
     for i in range(rounds):
         try:
-            if mode == 'c08' and i % 8 == 7:
+            if i % 8 == 7:
                 desc, bad = guarded(run_big, seed0 + i)
             else:
                 desc, bad = guarded(run_one, seed0 + i, mode == 'c09')
